@@ -1,5 +1,6 @@
 import Sismic.Proofs.LogFilters
 import Sismic.Proofs.ErrSpec
+import Sismic.Proofs.OldStore
 /-!
 # Property C08 — contracts are checked at the documented points; failures raise the right error
 
@@ -82,5 +83,78 @@ theorem invariant_failure_is_immediate (hd : ListenerErrs env) (clock : Int) (rs
     (o : ObjId) (c : String) (h : executeOnce env clock rs = (.error (.invariant o c), rs')) :
     ∃ i ev, rs'.eff.getLast? = some (.cond .inv o i ev (some false)) :=
   executeOnce_raisedAt env hd clock rs rs' _ h
+
+/-! ### `__old__` shows the variables as they were when the state was entered / the transition started
+
+For the modelled `PythonEvaluator` (`env.E = pyEvaluator`); `PyCtx.old` is the store behind
+`__old__`, one entry per state / transition. -/
+
+section Old
+variable {ω : Type} (env : Env PyCtx ω)
+
+/-- what a postcondition or an invariant of `obj` sees under the name `__old__` is the entry of
+    `obj` in the store (nothing when there is none) -/
+theorem shown_old_is_the_entry (st : IState PyCtx) (kind : CondKind) (hk : kind ≠ .pre) (obj : Obj) (code : Code)
+    (ev : Option Event) :
+    pyCond st kind obj code ev =
+      pyEval { viewEnv st with
+        event := some ev, sentNames := some (sentNames st), received := some (ev.map (·.name)),
+        old := some (match assocGet obj.id st.ctx.old with
+                     | some d => Val.old d
+                     | none => Val.nothing),
+        entryT := some (assocGet (ownerOf obj) st.entryTime),
+        idleT := some (assocGet (ownerOf obj) st.idleTime) } st.ctx code :=
+  Sismic.shown_old_is_the_entry st kind hk obj code ev
+
+/-- **the transition started**: when a transition that has postconditions or invariants has been
+    processed, its entry holds the variables as they were when its processing began (before its
+    preconditions were evaluated and its action ran) -/
+theorem old_is_the_start_of_the_transition (hE : env.E = pyEvaluator) (hc : env.ignoreContract = false)
+    (step : Micro) (t : Trans) (ht : (!t.inv.isEmpty || !t.post.isEmpty) = true) (rs rs' : RS PyCtx ω)
+    (sent : List Sent) (h : fireTransition env step t rs = (.ok sent, rs')) :
+    assocGet (.trans t.id) rs'.st.ctx.old = some rs.st.ctx.vars :=
+  start_snapshot env hE hc step t ht rs rs' sent h
+
+/-- **the state was entered**: when a state that has postconditions or invariants has been entered,
+    its entry holds the variables as they were just before (before its entry code ran) -/
+theorem old_is_the_entry_of_the_state (hE : env.E = pyEvaluator) (hc : env.ignoreContract = false)
+    (step : Micro) (s : StateDef) (hs : (!s.inv.isEmpty || !s.post.isEmpty) = true) (rs rs' : RS PyCtx ω)
+    (sent : List Sent) (h : enterState env step s rs = (.ok sent, rs')) :
+    assocGet (.state s.name) rs'.st.ctx.old = some rs.st.ctx.vars :=
+  entry_snapshot env hE hc step s hs rs rs' sent h
+
+/-- conditions that are not preconditions are evaluated without any change of the interpreter's
+    state (in particular of the variables and of the store): what the conditions evaluated after
+    the action / at the end of later steps are shown is what the two theorems above describe -/
+theorem evaluating_conditions_changes_nothing (kind : CondKind) (hk : kind ≠ .pre) (obj : Obj) (ev : Option Event)
+    (rs : RS PyCtx ω) : (evalContract env kind obj ev rs).2.st = rs.st :=
+  evalContract_st env kind hk obj ev rs
+
+/-- the interpreter run over a list of clock readings, whatever each call does (returns or raises) -/
+def runClocks : List Int → RS PyCtx ω → RS PyCtx ω
+  | [], rs => rs
+  | c :: cs, rs => runClocks cs (executeOnce env c rs).2
+
+/-- **… and nothing else ever changes it**: over any number of calls of `execute_once`, returning
+    or raising, the entry of a state / transition is what it was unless the log says that the
+    state was entered / the transition processed meanwhile (its entry code or action ran, or one of
+    its preconditions — for a transition also its invariants before the action — was evaluated).
+    So the invariants of a state evaluated at the end of every macro step, and its postconditions
+    evaluated when it is left, see the variables of its *last entry*. -/
+theorem old_changes_only_when_entered (hE : env.E = pyEvaluator) (k : ObjId) (clocks : List Int) (rs : RS PyCtx ω) :
+    ∃ l, (runClocks env clocks rs).eff = rs.eff ++ l ∧
+      (l.any (marks k) = false → assocGet k (runClocks env clocks rs).st.ctx.old = assocGet k rs.st.ctx.old) := by
+  induction clocks generalizing rs with
+  | nil => exact (OldRel_pre k).refl rs
+  | cons c cs ih =>
+    exact (OldRel_pre k).trans _ _ _ (old_executeOnce env hE k c rs) (ih _)
+
+/-- non-vacuity: freezing a context stores its variables under the object's identity -/
+example : assocGet (ObjId.trans 3)
+    (pyFreeze { vars := [("x", .int 1)] } (.trans { id := 3, source := "a", post := [{ src := "x >= __old__.x" }] })).old =
+      some [("x", .int 1)] :=
+  pyFreeze_old { vars := [("x", .int 1)] } (.trans { id := 3, source := "a", post := [{ src := "x >= __old__.x" }] })
+
+end Old
 
 end Sismic.C08
